@@ -2,7 +2,7 @@ CONSTANTS
   Kinds = {"deflate", "shuffle", "fletcher32", "lzf"}
   Levels = {1, 6, 9}
   Widths = {1, 4, 8}
-  Payloads = {"empty", "one", "odd", "l10", "l11", "rep", "rnd", "far"}
+  Payloads = {"empty", "one", "odd", "l10", "l11", "rep", "rnd", "far", "zeros"}
 SPECIFICATION Spec
 INVARIANTS Laws Emit
 CHECK_DEADLOCK FALSE
